@@ -341,6 +341,49 @@ func prepBuf(r *Rng, k Kind, vals []uint64, path int) DynBuf {
 
 var prepCounter int
 
+// overlappedCheck: source and destination are windows of ONE parent, the destination starting one sample before
+// the source. The conversion loop reads sample i before it writes position i, so every result is still the kernel
+// of the sample the source held before the call (same kind only); a loop that runs from the top, or in blocks,
+// reads samples it has already overwritten.
+func (g *Kern) overlappedCheck(k Kind, xs, ys []uint64) {
+	n := len(xs)
+	if n < 3 || n > 40 {
+		return
+	}
+	parent := Alloc(k, false, signal.Allocator{Channels: 1, Length: n + 1, Capacity: n + 1})
+	parent.SetSample(0, stalePattern(k))
+	for i, x := range xs {
+		parent.SetSample(i+1, x)
+	}
+	src, dst := parent.Slice(1, n+1), parent.Slice(0, n)
+	if p := try(func() { convCall(k, k)(src, dst) }); p != "" {
+		fmt.Fprintf(g.out, "kpanic %s %s %s overlapping-windows %s\n", convName(k, k), k, k, strings.ReplaceAll(p, " ", "_"))
+		g.st.lines++
+		return
+	}
+	differs := false
+	out := make([]uint64, n)
+	for i := range out {
+		out[i] = dst.Sample(i)
+		if out[i] != ys[i] {
+			differs = true
+		}
+	}
+	g.st.branch("overlapped-windows-run")
+	if !differs {
+		return
+	}
+	g.st.branch("overlapped-windows-differ")
+	fmt.Fprintf(g.out, "kseq %s %s %s\n", convName(k, k), k, k)
+	for i := range xs {
+		if k.IsFloat() && math.IsNaN(cellToFloat(xs[i], k)) {
+			continue
+		}
+		fmt.Fprintf(g.out, "k %s %s\n", cellString(xs[i], k), cellString(out[i], k))
+	}
+	g.st.lines += n + 1
+}
+
 // preparedCheck re-runs a kernel sequence through prepared source and destination buffers. Where the
 // source holds exactly xs the result must equal the plain run ys; otherwise (route 8) the pairs are
 // emitted as they are. Differences and route-8 runs go to the model as kernel sequences.
@@ -348,6 +391,9 @@ func (g *Kern) preparedCheck(sk, dk Kind, xs, ys []uint64) {
 	n := len(xs)
 	if n < 2 || n > 40 {
 		return
+	}
+	if sk == dk {
+		g.overlappedCheck(sk, xs, ys)
 	}
 	r := &Rng{s: uint64(prepCounter)*7919 + 17}
 	for t := 0; t < 3; t++ {
@@ -619,5 +665,68 @@ func genBigRef(g *Kern, r *Rng, tier string) {
 		g.st.cases++
 		g.st.Branches["goref-"+st]++
 		g.st.Shapes[fmt.Sprintf("goref/%s/ch%d/total%d", desc[:4], s.ch, total)]++
+	}
+}
+
+// genManyAllocs: a long run of small allocations of one multi-byte element type, every buffer checked when it is
+// made (shape, zero over the whole capacity) and filled with its own stamp; the last 48 are re-read after each new
+// allocation. Allocators that carve small buffers out of shared chunks go wrong at a chunk boundary, far from the
+// first call. One `goref` line per run.
+func genManyAllocs(g *Kern, r *Rng, tier string) {
+	runs := []struct {
+		k        Kind
+		ch, L, K int
+		n        int
+	}{{I32, 2, 3, 5, 6000}, {F64, 1, 2, 2, 9000}, {I16, 3, 1, 4, 12000}, {U8, 2, 8, 8, 20000}, {I64, 4, 2, 2, 5000}}
+	if tier == "thorough" {
+		for i := range runs {
+			runs[i].n *= 8
+		}
+	}
+	for _, c := range runs {
+		var recent []DynBuf
+		bad := ""
+		for i := 0; i < c.n && bad == ""; i++ {
+			var b DynBuf
+			if p := try(func() { b = Alloc(c.k, false, signal.Allocator{Channels: c.ch, Length: c.L, Capacity: c.K}) }); p != "" {
+				bad = fmt.Sprintf("allocation=%d panic=%s", i, strings.ReplaceAll(p, " ", "_"))
+				break
+			}
+			if b.Channels() != c.ch || b.Length() != c.L || b.Capacity() != c.K || b.Len() != c.ch*c.L || b.Cap() != c.ch*c.K || b.BitDepth() != c.k.Width() {
+				bad = fmt.Sprintf("allocation=%d shape", i)
+				break
+			}
+			_, cells, _ := b.Raw()
+			for j, x := range cells {
+				if x != 0 {
+					bad = fmt.Sprintf("allocation=%d not-zero pos=%d", i, j)
+				}
+			}
+			full := b.Slice(0, c.K)
+			stamp := small(c.k, 1+i%100)
+			for j := 0; j < full.Len(); j++ {
+				full.SetSample(j, stamp)
+			}
+			recent = append(recent, full)
+			if len(recent) > 48 {
+				recent = recent[1:]
+			}
+			for a, old := range recent {
+				want := small(c.k, 1+(i-(len(recent)-1-a))%100)
+				for j := 0; j < old.Len(); j++ {
+					if old.Sample(j) != want {
+						bad = fmt.Sprintf("allocation=%d overwrote an earlier buffer pos=%d", i, j)
+					}
+				}
+			}
+		}
+		st := "ok"
+		if bad != "" {
+			st = "mismatch"
+		}
+		fmt.Fprintf(g.out, "goref C13 many-small-allocations %s kind=%s ch=%d L=%d K=%d n=%d %s\n", st, c.k, c.ch, c.L, c.K, c.n, bad)
+		g.st.lines++
+		g.st.cases++
+		g.st.Branches["goref-allocs-"+st]++
 	}
 }
